@@ -1399,3 +1399,6 @@ package crypto
 //@ loop 1 invariant 0 <= j && j <= degree + 1
 //@ loop 2 invariant [batch-of-at-most-8] k <= j && j <= k + 8 && j <= degree + 1 && 0 <= k
 //@ loop 2 invariant [no-limb-overflow] 0 <= limb_numerator && limb_numerator <= pw255(j - k) && 0 <= limb_denominator && limb_denominator <= pw255(j - k)
+
+//@ func (SigningAlgorithm).String mode int props C09
+//@ assigns nothing
